@@ -877,7 +877,9 @@ def plan(ctx):
     # Standalone (no connection): transformations and accessors; cache()/persist() are BaseDataFrame's own there
     sa_follow = [k for k in follow_all if ALPHABET[k]["group"] in ("transformation", "accessor")
                  and k not in ("cache", "persist", "lineage")]
-    sa_quick = [k for k in sa_follow if k in REDUCED_KEYS or k in ("cache_base", "persist_base", "toDF_case", "columns", "sql_unopt")]
+    sa_quick = [k for k in sa_follow if k in ("select_mixed", "withColumn_case", "rename_clash", "toDF_case", "groupBy_agg_case",
+                                              "unpivot_case", "where", "orderBy", "limit", "drop", "join_name", "union", "alias",
+                                              "hint_broadcast", "cache_base", "persist_base", "columns", "sql", "sql_unopt", "getitem")]
     for state in (s_ for s_ in STATES if s_.startswith("SA:")):
         for k in (sa_follow if thorough else sa_quick):
             scen.append((state, [(k, None)], "A"))
